@@ -132,7 +132,16 @@ def make_issuing_signer(case):
         return P.ShrinkSigner(sp['S'], sp['r'], c01.name_input(kl) if kl else None)
     from ndn.security import Sha256WithRsaSigner, Sha256WithEcdsaSigner, Ed25519Signer
     cls = {'rsa': Sha256WithRsaSigner, 'ecdsa': Sha256WithEcdsaSigner, 'ed25519': Ed25519Signer}[P.family(sp['kind'])]
-    return cls(c01.name_input(kl), P.key(sp['kind'])['priv_der'])
+    # ONE signer object per issuing key for the whole process; the key locator it is configured with is set before each use
+    # (an issuer re-pointing its signer at a new certificate name): what it signed before must not leak into this certificate
+    if sp['kind'] not in _ISSUERS:
+        _ISSUERS[sp['kind']] = cls(c01.name_input(kl), P.key(sp['kind'])['priv_der'])
+    sg = _ISSUERS[sp['kind']]
+    sg.key_locator_name = c01.name_input(kl)
+    return sg
+
+
+_ISSUERS = {}
 
 
 def call(case):
@@ -237,6 +246,16 @@ def run_case(case):
         out.append((f'C16:{fn}:signature-length', f'signer wrote {sp["r"]} bytes, SignatureValue has {len(w["sigvalue"])}'))
     # post_parse
     try:
+        # parsed twice; the first result is edited in between (as a caller may): the second parse must not see the edits
+        first = sv2.parse_certificate(wire)
+        try:
+            if isinstance(first.name, list):
+                del first.name[-1:]
+            first.content = b'edited'
+            if first.signature_info is not None:
+                first.signature_info.key_locator = None
+        except Exception:   # noqa - an immutable result cannot be edited
+            pass
         cert = sv2.parse_certificate(wire)
         pn, pm, pc, ptrs = parse_data(wire)
     except Exception as e:
